@@ -1,5 +1,5 @@
 CONSTANTS Acc = {"a", "b"} Vals = {"v1"} Names = {"n1"} Merkles = {"m1"} MAXH = 1
-  Parts = {"prov", "feeds", "files"}
+  Parts = {"prov", "feeds", "files", "notif"}
 INIT Init
 NEXT Next
 VIEW View
